@@ -298,7 +298,9 @@ pub fn valid_spec(rng: &mut Rng, ctr: &mut u64) -> ReqSpec {
     *ctr = ctr.wrapping_add(1);
     let proto = if rng.chance(1, 2) { P::Ietf } else { P::Classic };
     let srv = if proto == P::Ietf && rng.chance(1, 3) { SrvMode::Correct } else { SrvMode::Absent };
-    ReqSpec::Valid { proto, size: 1024 + 4 * rng.below(120) as u16, nonce_seed: *ctr, srv, vers: vec![r::VER_DRAFT13] }
+    // sizes: uniform over the legal range, one in six at its edges
+    let size = if rng.chance(1, 6) { *rng.pick(&[1024u16, 1028, 1496, 1500, 1500]) } else { 1024 + 4 * rng.below(120) as u16 };
+    ReqSpec::Valid { proto, size, nonce_seed: *ctr, srv, vers: vec![r::VER_DRAFT13] }
 }
 
 /// One datagram of an "interesting" kind; `ctr` keeps nonces unique.
@@ -391,6 +393,25 @@ pub fn sentinels(plan: &mut Plan, k: u32, start_us: u64) -> u64 {
         t += 20_000;
     }
     t
+}
+
+/// The last thing a run sends: 1-6 awkward datagrams and, in the same instant behind them, one
+/// valid request from its own sentinel socket. Nothing arrives afterwards, so a worker that stops
+/// draining part-way through its queue (and would be rescued by the wake-up of the next arrival)
+/// leaves that request unanswered.
+pub fn final_burst(rng: &mut Rng, plan: &mut Plan, t_us: u64) {
+    let mut ctr = plan.seed ^ 0xf1a1;
+    for _ in 0..1 + rng.below(6) {
+        let req = match rng.below(4) {
+            0 => ReqSpec::Garbage { len: 0, seed: 0 },
+            1 => ReqSpec::Garbage { len: *rng.pick(&[1u32, 3, 4, 1023, 1501, 3000]), seed: rng.next_u64() },
+            _ => storm_spec(rng, &mut ctr),
+        };
+        plan.step(t_us, Action::Send { sock: 300 + rng.below(4) as u32, req });
+    }
+    let proto = if rng.chance(1, 2) { P::Classic } else { P::Ietf };
+    let req = ReqSpec::Valid { proto, size: 1024, nonce_seed: plan.seed ^ 0x5e99, srv: SrvMode::Absent, vers: vec![r::VER_DRAFT13] };
+    plan.step(t_us, Action::Send { sock: SENTINEL_SOCK + 8, req });
 }
 
 /// Exactly-once / right-recipient oracle over the recorded history (C09, C18).
